@@ -13,14 +13,14 @@ CHECKS = {
                 text="Per program two queries over all inputs: panic flag differs from 'some operation fails on the executed path'; both panic but reason/location differ from the first failing operation. unsat for every generated program, de-duplication on and off.",
                 note="Trusted as C01 plus the span rule (first char of left-most operand .. after last char of right-most operand, field access = field identifier). When the index part and the value part of ONE assignment both fail only 'panic iff' is compared (order unspecified in the guide).", ref="DESIGN.md section 4, C02"),
     "C03": dict(level="translation_validation", tech=TV + "; one template per (operator, type, operand form); oracle = z3 bit-vector arithmetic in a doubled width",
-                text="Every binary/unary operator and every cast between primitive types, at every width: both operands symbolic at full width (mul/div/rem up to 8 bits quick / 16 bits thorough), one literal operand from a boundary set at all widths; value, panic-iff and reason/location queries. Known finding neg-const-mul is confined to its region by an assumption and re-solved outside it.",
+                text="Every binary/unary operator and every cast between primitive types, at every width: both operands symbolic at full width (mul/div/rem up to 8 bits quick / 16 bits thorough), one literal operand from a boundary set at all widths, with and without a type suffix (an unsuffixed literal is a node without a type of its own); value, panic-iff and reason/location queries. Known finding neg-const-mul is confined to its region by an assumption and re-solved outside it.",
                 note="Trusted: z3's bvmul/bvsdiv/bvsrem as arithmetic oracle. Outside: 32/64-bit * / % with both operands free (multiplier miters do not finish); queries that hit the cap are counted inconclusive, never passed.", ref="DESIGN.md section 4, C03"),
     "C04": dict(level="translation_validation", tech="SMT miters: (a) compiled program with optimize_duplicate_gates on vs off, all outputs, all inputs; (b) builder request sequences run by the real CircuitBuilder (verif_hooks) vs literal semantics of the requests, all inputs",
                 text="On/off circuits of every generated program are mitered (panic flag, record under the flag, value bits). Every sequence of <= 2 builder requests of every kind over 2 inputs (thorough: 3 xor/and/not requests), every sequence of 4 xor/and requests over 3 inputs that starts with op(i0, i1) (quick: distinct operands, 115k x cache on/off; thorough: also equal operands), and seeded sequences up to 40 requests biased to the rewrite-rule shapes are executed by the real builder and compared with their literal semantics for all inputs, cache on and off, for every listed output wire.",
                 note="The history dimension (which requests) is enumerated/seeded, not symbolic: the builder state lives in HashMaps that CBMC cannot execute (measured). Panic-record bits are compared only under the panic flag (they are ignored by every decoder otherwise).", ref="DESIGN.md section 4, C04"),
     "C05": dict(level="translation_validation", tech=TV + "; fixed id-keyed templates (inference families x integer types, annotated and de-annotated; zero-sized types)",
                 text="Scoped to the solver-decidable core 'static type and emitted wires never diverge': for each template that the checker accepts, compilation does not panic, validate() accepts, parties / bit counts / 161 + size(return) outputs match the declared types, and the circuit equals the reference under the INTENDED types for all inputs. Annotated templates must be accepted. Failing templates are individually listed known findings; all others must pass.",
-                note="Not 'all programs the checker accepts': a fixed family of ~600 templates. The checker is run natively (it cannot be executed symbolically, DESIGN.md section 3).", ref="DESIGN.md section 4, C05"),
+                note="Not 'all programs the checker accepts': a fixed family of ~970 templates (58 inference families x 9 integer types, annotated and de-annotated, plus 17 zero-size templates). The checker is run natively (it cannot be executed symbolically, DESIGN.md section 3).", ref="DESIGN.md section 4, C05"),
     "C08": dict(level="translation_validation", tech="SMT pattern semantics: z3 decides exhaustiveness of each arm list over all scrutinee values and is compared with the real checker's verdict; accepted matches are translation-validated; reported witnesses are checked by sat/unsat queries",
                 text="For thousands of arm lists (exact covers perturbed at their boundaries) over bool/int/enum/tuple/struct scrutinees: checker accepts <=> solver says exhaustive; circuit = first matching arm with its bindings for all values; every reported missing case matches some value and no matched value.",
                 note="Trusted: matches(p, v) in engine/tv/ref.py written from the guide. Arm lists are seeded, <= 8 arms, nesting <= 2.", ref="DESIGN.md section 4, C08"),
@@ -31,14 +31,14 @@ CHECKS = {
                 text="Compiler outputs and arbitrary well-formed gate lists (exhaustive small shapes, seeded larger ones with repeated operands/outputs, unused wires) are converted by the real allocator; outputs equal for all inputs (z3), validate() accepts, no read-before-write, the Input instructions load every party's inputs in order, register count and AND count as specified.",
                 note="Circuit shapes/gate lists are enumerated or seeded; inputs symbolic. A Kani harness on the allocator is out of reach (HashMap; measured 900 s, no result).", ref="DESIGN.md section 4, C10"),
     "C11": dict(level="translation_validation", tech="SMT miter of (a) the circuit re-imported by the real bristol_to_garble and (b) an independent reading of the exported text against the original outputs, all inputs",
-                text="Export/import round trip of compiled circuits, templates with repeated/constant/input outputs and seeded gate lists: same non-panic outputs for all inputs; exported text well-formed (counts, single assignment before use, outputs last in order, de-aliased repeats); input-wire outputs refused.",
+                text="Export/import round trip of compiled circuits, templates with repeated/constant/input outputs and seeded gate lists: same non-panic outputs for all inputs; exported text well-formed (counts, single assignment before use, outputs last in order, de-aliased repeats), also when the target path already holds an older, longer export; input-wire outputs refused.",
                 note="Scoped: 'importing ANY text never panics' is not claimed (File/BufReader + text; not encodable within reach).", ref="DESIGN.md section 4, C11"),
     "C12": dict(level="translation_validation", tech=TV + "; constants computed by the generator in wrapping arithmetic of the declared type; miter against the real compilation of the textually substituted twin",
                 text="Programs with const declarations (external values, earlier consts, nested min/max/+/-, all primitive types) used as values, array sizes, repeat sizes and party counts: compile_with_constants(P, c) equals the substitution semantics for all inputs (value, panic-iff, location) and the compiled twin P[c]; withheld/mistyped constants give errors naming them, never a panic.",
-                note="Constant assignments are seeded boundary values; sizes 1..4 (size 0 belongs to C05).", ref="DESIGN.md section 4, C12"),
+                note="Constant assignments are seeded boundary values; parameter / type sizes 1..4 (zero-sized parameters belong to C05); repeat-literal sizes 0..3 as local arrays.", ref="DESIGN.md section 4, C12"),
     "C13": dict(level="translation_validation", tech=TV + "; all array elements symbolic under the sortedness precondition; relational specification for join(), nested-loop reference for for-join; sorting networks through the hook",
                 text="For every size pair (n, m) up to the bound and several key/payload shapes: for-join loop effects and panics equal the nested-loop join in ascending key order for ALL strictly ascending arrays; join() output satisfies length, zero-padding, sorted flags, flagged = matching elements, no key twice, every common key present (also with duplicate keys within one side); the same for arrays that are fully or partly compile-time constants (the builder folds the networks on constant wires). Bitonic sorter networks (hook) sort and permute for all inputs.",
-                note="Precondition: arrays sorted by their unsigned key as documented. Sizes n + m <= 7 (quick) / 10 (thorough), keys u8/u16 (+u32, tuple keys thorough).", ref="DESIGN.md section 4, C13"),
+                note="Precondition: arrays sorted by their unsigned key as documented. Sizes n + m <= 7 (quick) / 10 (thorough), keys u8/u16 (+u32, tuple keys thorough); constant / partly constant arrays for u8 keys (thorough: all integer keys).", ref="DESIGN.md section 4, C13"),
     "C14": dict(level="translation_validation", tech=TV + "; mutation-heavy generator profile, every live variable returned",
                 text="Programs built from let mut / (compound) assignment through nested accessors with constant and input-dependent indices, aggregate copies, mutation in branches/arms/loops/callees and shadowing: output (all live variables) equals the by-value reference for all inputs.",
                 note="As C01.", ref="DESIGN.md section 4, C14"),
